@@ -53,6 +53,14 @@ PYOP = {"add": operator.add, "sub": operator.sub, "mul": operator.mul, "floordiv
         "mod": operator.mod, "eq": operator.eq, "ne": operator.ne, "lt": operator.lt, "le": operator.le,
         "gt": operator.gt, "ge": operator.ge, "and": operator.and_, "or": operator.or_, "xor": operator.xor,
         "truediv": operator.truediv, "neg": operator.neg, "abs": operator.abs}
+# kernel-mode operations: (NumPy/dask function name, index of the output or None, Python spelling or None)
+KOPS = {"k_floordiv": ("floor_divide", None, operator.floordiv), "k_mod": ("remainder", None, operator.mod),
+        "k_truediv": ("true_divide", None, operator.truediv), "k_fmod": ("fmod", None, None),
+        "k_power": ("power", None, operator.pow), "k_divmod0": ("divmod", 0, divmod), "k_divmod1": ("divmod", 1, divmod),
+        "k_modf0": ("modf", 0, None), "k_modf1": ("modf", 1, None), "k_frexp0": ("frexp", 0, None), "k_frexp1": ("frexp", 1, None)}
+KBIN = [k for k in KOPS if KOPS[k][0] not in ("modf", "frexp")]
+KUN = [k for k in KOPS if KOPS[k][0] in ("modf", "frexp")]
+CODES = {70001: float("inf"), 70002: float("-inf"), 70003: float("nan")}
 BINOPS = ["add", "sub", "mul", "floordiv", "mod", "min", "max", "eq", "ne", "lt", "le", "gt", "ge", "and", "or", "xor",
           "truediv"]
 UNOPS = ["neg", "abs", "square", "lnot"]
@@ -66,8 +74,11 @@ def build(x, as_numpy=False):
     if f == "-":
         return None
     if f == "s":
-        return PY[x["k"]](x["v"][0])
-    a = np.array(x["v"], dtype=np.int64).reshape(tuple(x["sh"])).astype(DT[x["k"]])
+        return PY[x["k"]](CODES.get(x["v"][0], x["v"][0]))
+    if x["k"] in "fc" and any(v in CODES for v in x["v"]):
+        a = np.array([CODES.get(v, v) for v in x["v"]], dtype=np.float64).reshape(tuple(x["sh"])).astype(DT[x["k"]])
+    else:
+        a = np.array(x["v"], dtype=np.int64).reshape(tuple(x["sh"])).astype(DT[x["k"]])
     if f == "n" or as_numpy:
         return a
     return da.from_array(a, chunks=py_chunks(x["ch"]))
@@ -78,6 +89,10 @@ def apply_op(fam, op, objs, spelling, lib):
     spelling: 'op' Python operator / method, 'da' library function, 'np' NumPy function dispatched
     to dask through __array_ufunc__ / __array_function__."""
     mod = np if spelling == "np" else lib
+    if op in KOPS:
+        name, idx, pyop = KOPS[op]
+        r = pyop(*objs) if (spelling == "op" and pyop is not None) else getattr(mod, name)(*objs)
+        return r if idx is None else r[idx]
     if fam == "binary":
         x, y = objs
         if spelling == "op" and op in PYOP:
@@ -114,7 +129,7 @@ def np_reference(case):
     if case["fam"] == "outwhere" and objs[2] is not None:
         objs[2] = objs[2].copy()
     try:
-        with warnings.catch_warnings():
+        with warnings.catch_warnings(), np.errstate(all="ignore"):
             warnings.simplefilter("ignore")
             r = np.asarray(apply_op(case["fam"], case["op"], objs, "da", np))
         return {"err": False, "arr": r}
@@ -138,9 +153,33 @@ def cell_ok(e, g):
     return bool(g == e)
 
 
-def content_ok(exp_cells, arr):
-    got = np.asarray(arr).ravel().tolist()
-    return len(got) == len(exp_cells) and all(cell_ok(e, g) for e, g in zip(exp_cells, got))
+_KCACHE = {}
+
+
+def kernel(case, term):
+    """The uninterpreted element function of kernel-mode cells <<"K", a, b>>: NumPy's own kernel
+    applied to one cell of each operand (as a 1-element array of the operand's dtype, or the Python
+    scalar itself, so that promotion is NumPy's as well)."""
+    key = (case["op"], tuple((x["f"], x["k"]) for x in case["xs"]), tuple(term[1:]))
+    if key not in _KCACHE:
+        args = [build(dict(x, sh=[] if x["f"] == "s" else [1], v=[v], f="s" if x["f"] == "s" else "n"))
+                for x, v in zip(case["xs"], term[1:])]
+        name, idx, _py = KOPS[case["op"]]
+        with warnings.catch_warnings(), np.errstate(all="ignore"):
+            warnings.simplefilter("ignore")
+            r = getattr(np, name)(*args)
+        _KCACHE[key] = np.asarray(r if idx is None else r[idx]).ravel()[0]
+    return _KCACHE[key]
+
+
+def content_ok(exp_cells, arr, case=None):
+    a = np.asarray(arr).ravel()
+    if len(a) != len(exp_cells):
+        return False
+    if exp_cells and isinstance(exp_cells[0], list) and exp_cells[0][:1] == ["K"]:
+        want = np.array([kernel(case, t) for t in exp_cells])
+        return want.dtype.kind == a.dtype.kind and bool(np.array_equal(a, want.astype(a.dtype), equal_nan=True))
+    return all(cell_ok(e, g) for e, g in zip(exp_cells, a.tolist()))
 
 
 def guard(case, exp):
@@ -151,7 +190,7 @@ def guard(case, exp):
     if ref["err"]:
         return None
     a = ref["arr"]
-    if list(a.shape) != list(exp["shape"]) or a.dtype.kind != exp["kind"] or not content_ok(exp["cells"], a):
+    if list(a.shape) != list(exp["shape"]) or a.dtype.kind != exp["kind"] or not content_ok(exp["cells"], a, case):
         return "numpy gives shape=%s kind=%s cells=%s, spec %r" % (a.shape, a.dtype.kind, a.ravel().tolist(), exp)
     return None
 
@@ -165,7 +204,7 @@ def run_dask(case, spelling="da"):
     """Apply the case to real dask arrays.  Returns (obs, full)."""
     import dask.array as da
     try:
-        with warnings.catch_warnings():
+        with warnings.catch_warnings(), np.errstate(all="ignore"):
             warnings.simplefilter("ignore")
             objs = [build(x) for x in case["xs"]]
             y = apply_op(case["fam"], case["op"], objs, spelling, da)
@@ -188,7 +227,7 @@ def run_dask(case, spelling="da"):
         return o, None
 
 
-def judge(exp, obs, full):
+def judge(exp, obs, full, case=None):
     """Python mirror of ElemwiseTrace!Bad: the clauses the observation violates."""
     if exp["err"]:
         return [] if obs["raised"] else ["ErrorExpected"]
@@ -199,7 +238,7 @@ def judge(exp, obs, full):
         bad.append("Shape")
     if obs["kind"] != exp["kind"] or obs["ckind"] != exp["kind"]:
         bad.append("Kind")
-    if full is None or not content_ok(exp["cells"], full):
+    if full is None or not content_ok(exp["cells"], full, case):
         bad.append("Content")
     return bad + meta_clauses(obs)
 
@@ -239,9 +278,6 @@ def root_cause(case, clauses=None):
     xs = case["xs"]
     live = [x for x in xs if x["f"] != "-"]
     can = lambda names: clauses is None or any(c in names for c in clauses)
-    if can(STRUCT_CLAUSES) and (len(live) > 1 or case["fam"] == "clip") and \
-            any(x["f"] == "d" and any(s == 1 and 0 in c for s, c in zip(x["sh"], x["ch"])) for x in live):
-        return "elemwise:zero-chunk-on-unit-axis"
     if case["fam"] == "outwhere" and xs[2]["f"] != "-":
         # where=True (the Python constant) is the same code path as no where= at all
         masked = xs[3]["f"] != "-" and not (xs[3]["f"] == "s" and xs[3]["v"] == [1])
@@ -262,6 +298,9 @@ def root_cause(case, clauses=None):
                 return "outwhere:where+out-dtype-differs"
             if not masked and can(DTYPE_CLAUSES):
                 return "outwhere:out-dtype-differs"
+    if can(STRUCT_CLAUSES) and (len(live) > 1 or case["fam"] == "clip") and \
+            any(x["f"] == "d" and any(s == 1 and 0 in c for s, c in zip(x["sh"], x["ch"])) for x in live):
+        return "elemwise:zero-chunk-on-unit-axis"
     return None
 
 
@@ -275,7 +314,7 @@ def classify(case, clauses, spelling="da"):
     clause = ([c for c in ORDER_ALL if c in clauses] or clauses)[0]
     forms = "".join(x["f"] for x in case["xs"])
     sig = "%s:%s:%s" % (case["fam"], forms, clause)
-    if clause in ("Kind", "Dtype", "UnexpectedRaise", "ErrorExpected"):
+    if clause in ("Kind", "Dtype", "UnexpectedRaise", "ErrorExpected") or case["op"] in KOPS:
         sig += ":%s:%s" % (case["op"], "".join(x["k"] for x in case["xs"] if x["f"] != "-"))
     else:
         sig += ":" + ("+".join(features(case)) or "plain")
@@ -299,7 +338,7 @@ def _work(item):
         if "skip" in obs:
             res.append(("SKIP", sp, obs["skip"]))
             continue
-        bad = judge(exp, obs, full)
+        bad = judge(exp, obs, full, case)
         det = None
         if bad:
             det = {"obs": obs, "got": np.asarray(full).ravel().tolist() if full is not None else None}
@@ -314,6 +353,8 @@ def spellings_for(case, rng, thorough):
     all_ = ["da", "np"] + (["op"] if (fam in ("unary", "clip") or (fam == "binary" and case["op"] in PYOP)) else [])
     if fam == "unary" and case["op"] not in PYOP:
         all_ = ["da", "np"]
+    if case["op"] in KOPS:
+        all_ = ["da", "np"] + (["op"] if KOPS[case["op"]][2] is not None else [])
     if fam == "where" and case["xs"][0]["f"] == "s" and not any(x["f"] == "d" for x in case["xs"][1:]):
         all_ = ["da"]
     if not thorough:
@@ -330,12 +371,13 @@ def tla_set(items):
     return TLA("{" + ", ".join(tla_value(i) for i in items) + "}")
 
 
-def _cfg(lab, fam, shapes, ops, ktuples, forms, allch=True, zero=False, bad="{}"):
+def _cfg(lab, fam, shapes, ops, ktuples, forms, allch=True, zero=False, bad="{}", special=False):
     from ..tlc import tla_value
     st = lambda items: "{" + ", ".join(tla_value(i) for i in items) + "}"
     return ('[lab |-> "%s", fam |-> "%s", shapes |-> %s, bad |-> %s, ops |-> %s, ktuples |-> %s, forms |-> %s, '
-            'allch |-> %s, zero |-> %s]' % (lab, fam, shapes, bad, st(ops), st(ktuples), st(forms),
-                                            "TRUE" if allch else "FALSE", "TRUE" if zero else "FALSE"))
+            'allch |-> %s, zero |-> %s, special |-> %s]' % (lab, fam, shapes, bad, st(ops), st(ktuples), st(forms),
+                                                            "TRUE" if allch else "FALSE", "TRUE" if zero else "FALSE",
+                                                            "TRUE" if special else "FALSE"))
 
 
 def families(ctx):
@@ -349,8 +391,8 @@ def families(ctx):
         _cfg("bcast", "binary", ALLSH, ["add"], [["i", "i"]], f("dd", "dn", "nd"),
              zero=not q, bad="{<<<<2>>, <<3>>>>, <<<<2, 3>>, <<2>>>>, <<<<0>>, <<2>>>>}"),
         # dtype kinds x operations x operand forms (dtype inference does not look at chunks)
-        _cfg("kinds", "binary", "{<<>>, <<2>>}" if q else "{<<>>, <<3>>, <<2, 1>>}", BINOPS, allk2, f("dd", "dn", "nd", "ds", "sd"),
-             allch=False),
+        _cfg("kinds", "binary", "{<<>>, <<2>>}" if q else "{<<>>, <<3>>, <<2, 1>>}", BINOPS, allk2,
+             f("dd", "ds", "sd") if q else f("dd", "dn", "nd", "ds", "sd"), allch=False),
         _cfg("unary", "unary", ALLSH, UNOPS, [[k] for k in K5], f("d"), zero=not q),
         _cfg("astype", "astype", "{<<>>, <<0>>, <<3>>, <<2, 3>>}", K5, [[k] for k in K5], f("d"), zero=not q),
         _cfg("where", "where", small if q else "{<<>>, <<1>>, <<3>>, <<2, 1>>, <<2, 3>>, <<0>>}", ["where"],
@@ -360,16 +402,23 @@ def families(ctx):
         _cfg("clip", "clip", small, ["clip"],
              [["i", "i", "i"], ["u", "i", "i"], ["i", "f", "i"]] + ([] if q else [["f", "i", "i"], ["u", "u", "i"], ["i", "i", "f"]]),
              f("dss", "d-s", "ds-", "dds", "dnd") + ([] if q else f("nds", "d--")), allch=not q),
-        _cfg("outwhere", "outwhere", "{<<>>, <<3>>, <<2, 1>>}" if q else small, ["add"] if q else ["add", "lt"],
+        _cfg("outwhere", "outwhere", "{<<>>, <<3>>}" if q else small, ["add"] if q else ["add", "lt"],
              [["i", "i", "i", "b"], ["i", "i", "f", "b"], ["f", "i", "i", "b"]] + ([] if q else [["u", "i", "i", "b"], ["i", "u", "u", "b"]]),
              f("ddd-", "dd-d", "dddd", "dndn", "ddds") + ([] if q else f("dsdd", "dd-s")),
              allch=False),
     ]
-    caps = {"bcast": 6000, "kinds": 7000, "unary": 2000, "astype": 800, "where": 5000, "clip": 4000, "outwhere": 5000}
+    # division-like and multi-output ufuncs on operands with zeros, negatives, inf, nan (kernel mode)
+    cfgs += [
+        _cfg("kernel2", "binary", "{<<>>, <<7>>}" if q else "{<<>>, <<7>>, <<2, 1>>, <<1, 4>>}", KBIN,
+             [k for k in allk2 if "c" not in k] + [["c", "c"], ["f", "c"]] if q else allk2,
+             f("dd", "nd", "ds") if q else f("dd", "dn", "nd", "ds"), allch=False, special=True),
+        _cfg("kernel1", "unary", "{<<>>, <<7>>, <<2, 4>>}", KUN, [[k] for k in K5], f("d"), allch=False, zero=not q, special=True),
+    ]
+    caps = {"kernel2": 2000, "kernel1": 100, "bcast": 2500, "kinds": 2500, "unary": 600, "astype": 200, "where": 1200, "clip": 500, "outwhere": 1500}
     return TLA("{" + ",\n ".join(cfgs) + "}"), caps
 
 
-INVS = ["CellCount", "ShapeIsBroadcast", "Commutes", "Attribution", "Selects", "Ranges"]
+INVS = ["CellCount", "ShapeIsBroadcast", "Commutes", "Attribution", "Selects", "Ranges", "KernelTerms"]
 
 
 def nontrivial(case, exp):
@@ -393,7 +442,7 @@ def replay_cases(ctx, label, cases, spell=None, report=True):
             if bad:
                 found.append((case, bad))
                 if report:
-                    ctx.violation(classify(case, bad, sp), "%s: dask disagrees with the reference on %s (%s)" % (bad[0], label, "+".join(bad)),
+                    ctx.violation(classify(case, bad, sp), "%s: dask disagrees with the reference on %s (%s)" % (bad[0], case.get("lab", label), "+".join(bad)),
                                   {"case": case, "expected": exp, "spelling": sp, "observed": detail})
     return found
 
@@ -611,14 +660,21 @@ def record_expressions(ctx, n):
     return out
 
 
-def validate(ctx, pairs, report=True):
-    """TLC decides the recorded steps (dask records and their NumPy guard records)."""
+def validate(ctx, pairs, report=True, extra=None):
+    """TLC decides the recorded steps (dask records and their NumPy guard records).  extra =
+    (records, Python verdicts) of enumerated cases: TLC's verdict on them must equal judge()'s."""
     spec, cfg = ctx.model(ctx.spec("array", "ElemwiseTrace.tla"), {})
     found = []
-    for lo in range(0, len(pairs), 2500):
+    for lo in range(0, max(len(pairs), 1), 2500):
         part = pairs[lo:lo + 2500]
         recs = [r for p in part for r in p]
-        rej = ctx.tlc_validate(spec, recs, cfg, timeout=1800)
+        xrecs = extra[0] if (extra and lo == 0) else []
+        rej = ctx.tlc_validate(spec, recs + xrecs, cfg, timeout=1800)
+        ctx.traces -= len(xrecs)
+        for x in xrecs:
+            t = sorted(c for c in rej.get(x["id"], ["{}"])[0].strip("{} ").replace('"', "").split(", ") if c)
+            if t != extra[1][x["id"]]:
+                raise MachineryError("Python verdict %r and TLC verdict %r differ on %r" % (extra[1][x["id"]], t, x))
         byid = {r["id"]: r for r in recs}
         for rid, clauses in sorted(rej.items()):
             if rid.startswith("g"):
@@ -648,7 +704,7 @@ def enumerate_cases(ctx):
 def run(ctx):
     bylab, caps = enumerate_cases(ctx)
     only = os.environ.get("VERIF_C19_FAMS")        # development aid: restrict the families
-    total, sampled, crosscheck = 0, False, []
+    total, sampled, crosscheck, chosen = 0, False, [], []
     for label in sorted(bylab):
         cases = bylab[label]
         total += len(cases)
@@ -658,14 +714,15 @@ def run(ctx):
         if ctx.quick and len(cases) > caps[label]:
             sampled = True
             cases = ctx.rng.sample(cases, caps[label])
-        replay_cases(ctx, label, cases)
+        chosen += cases
         ctx.sample({"case": cases[0]["c"], "expected": cases[0]["e"]})
-        crosscheck += ctx.rng.sample(cases, min(len(cases), 60))
+        crosscheck += ctx.rng.sample(cases, min(len(cases), 40))
+    replay_cases(ctx, "the enumerated cases", chosen)          # one worker pool for all families
     # the Python verdict function is cross-checked against TLC on a sample of the enumerated cases
-    crosscheck_verdicts(ctx, crosscheck)
-    # code -> spec
-    pairs = record_expressions(ctx, ctx.pick(400, 4000))
-    validate(ctx, pairs)
+    xrecs, xverdicts = crosscheck_records(crosscheck)
+    # code -> spec (the same TLC run decides the cross-check records)
+    pairs = record_expressions(ctx, ctx.pick(250, 4000))
+    validate(ctx, pairs, extra=(xrecs, xverdicts))
     if pairs:
         ctx.sample({"recorded_step": {k: pairs[0][0][k] for k in ("fam", "op", "xs", "spelling")}})
     ctx.exhaustive = not sampled
@@ -678,12 +735,13 @@ def run(ctx):
                        "shapes bounded as listed in the Configs constant of the TLC run"]
 
 
-def crosscheck_verdicts(ctx, cases):
-    """judge() (Python) and ElemwiseTrace!Bad (TLC) must agree on the same observations."""
+def crosscheck_records(cases):
+    """Observations of enumerated cases as trace records + the verdict judge() takes on them:
+    judge() (Python) and ElemwiseTrace!Bad (TLC) must agree on the same observations."""
     recs, verdicts = [], {}
     for n, c in enumerate(cases):
         case, exp = c["c"], c["e"]
-        if case["op"] == "truediv" or (not exp["err"] and DC in exp["cells"]):
+        if case["op"] == "truediv" or case["op"] in KOPS or (not exp["err"] and DC in exp["cells"]):
             continue
         obs, full = run_dask(case, "da")
         if "skip" in obs:
@@ -697,12 +755,7 @@ def crosscheck_verdicts(ctx, cases):
         rid = "x%d" % n
         recs.append({"id": rid, "fam": case["fam"], "op": case["op"], "xs": case["xs"], "obs": obs})
         verdicts[rid] = trim_clauses(judge(exp, obs, full))
-    spec, cfg = ctx.model(ctx.spec("array", "ElemwiseTrace.tla"), {})
-    rej = ctx.tlc_validate(spec, recs, cfg, label="verdict cross-check")
-    for rid, v in verdicts.items():
-        t = sorted(c for c in rej.get(rid, ["{}"])[0].strip("{} ").replace('"', "").split(", ") if c)
-        if t != v:
-            raise MachineryError("Python verdict %r and TLC verdict %r differ on %r" % (v, t, [r for r in recs if r["id"] == rid][0]))
+    return recs, verdicts
 
 
 def replay(ctx, obj):
@@ -732,7 +785,7 @@ def replay(ctx, obj):
         return bool(rej)
     case, exp, sp = c["case"], c["expected"], c["spelling"]
     obs, full = run_dask(case, sp)
-    bad = judge(exp, obs, full)
+    bad = judge(exp, obs, full, case)
     print("case:", case, "\nexpected:", exp, "\nobserved:", obs, "\nclauses:", bad)
     return bool(bad)
 
@@ -742,6 +795,8 @@ SELFTEST_CONFIGS = [
     ("kinds", "binary", "{<<>>, <<2>>}", ["add", "lt"], [[a, b] for a in K5 for b in K5], ["ds", "sd"], False),
     ("where", "where", "{<<>>, <<3>>}", ["where"], [["b", "i", "f"], ["b", "f", "i"], ["i", "b", "i"]], ["sdd", "ddd"], False),
     ("outwhere", "outwhere", "{<<2>>}", ["add"], [["i", "i", "i", "b"]], ["ddd-", "dddd"], True),
+    ("kernel2", "binary", "{<<5>>}", ["k_divmod0", "k_divmod1", "k_mod"], [["i", "i"], ["f", "f"], ["f", "i"]], ["dd", "ds"], False),
+    ("kernel1", "unary", "{<<7>>}", ["k_frexp0", "k_frexp1", "k_modf1"], [["f"], ["i"]], ["d"], False),
 ]
 
 
@@ -750,6 +805,7 @@ def _mutants():
     import dask.array as da
     import dask.array.core as core
     import dask.array.routines as routines
+    import dask.array.ufunc as ufunc
     return [
         ("elemwise: operands aligned on the leading instead of the trailing axes", core, "elemwise",
          "(a, tuple(range(a.ndim)[::-1]) if not is_scalar_for_elemwise(a) else None)",
@@ -759,6 +815,10 @@ def _mutants():
          "                if not is_scalar_for_elemwise(a)\n                else np.asarray(a)\n", ()),
         ("handle_out: out keeps its old chunks", core, "handle_out",
          "        out._chunks = result.chunks\n", "        pass\n", ()),
+        ("divmod: remainder derived from the quotient (differs for zero / infinite divisors)", ufunc, "divmod",
+         "res2 = x % y", "res2 = x - res1 * y", (da,)),
+        ("frexp: mantissa and exponent outputs swapped", ufunc, "frexp",
+         "(getitem, key, 0)", "(getitem, key, 1)", (da,)),
         ("where(scalar condition): result not cast to the common dtype", routines, "where",
          "return broadcast_to(out, shape).astype(dtype)", "return broadcast_to(out, shape)", (da,)),
     ]
@@ -771,7 +831,8 @@ def selftest(ctx):
     from ..arrayobs import source_mutant
     ok = True
     f = lambda names: [list(n) for n in names]
-    cfgs = TLA("{" + ", ".join(_cfg(lab, fam, sh, ops, kt, f(forms), allch=allch) for lab, fam, sh, ops, kt, forms, allch in SELFTEST_CONFIGS) + "}")
+    cfgs = TLA("{" + ", ".join(_cfg(lab, fam, sh, ops, kt, f(forms), allch=allch, special=lab.startswith("kernel"))
+                               for lab, fam, sh, ops, kt, forms, allch in SELFTEST_CONFIGS) + "}")
     spec, cfg = ctx.model(ctx.spec("array", "ElemwiseMC.tla"), {"Configs": cfgs}, invariants=INVS)
     cases, _ = ctx.tlc_cases(spec, cfg, label="selftest cases")
     cases = [c for c in cases if root_cause(c["c"]) is None]
